@@ -1,6 +1,14 @@
-// Package opsgen is the translator of the C08 check: a go/ast pass over types/*.go and core/transform.go of the
-// library's *working tree* that writes lean/Gozod/Gen/MethodOps.lean — one row per exported method of a schema type
-// whose result can be a schema.
+// Package opsgen is the translator of the C08 check: a go/ast + go/types pass over package types and core/transform.go
+// of the library's *working tree* that writes lean/Gozod/Gen/MethodOps.lean — one row per exported method (promoted
+// methods included: the method set of *T) of a schema type whose result can be a schema.
+//
+// Type information (typeload.go): `go list -export -deps` in the tree + the gc export-data importer + types.Config.Check
+// on the sources of core and types.  It decides: which structs are schema types (pointer has the methods of
+// core.ZodSchema), which internals struct a type reaches through its `internals` field (directly or through an embedded
+// schema), which of its fields are Go references (map, slice, pointer, interface, func, chan — by underlying type), whether
+// a result type admits a schema, which declaration a call resolves to (types.Info.Uses / method sets), what is a
+// conversion / builtin / package-qualified call, which methods of core.ZodTypeInternals write their receiver.  If the tree
+// does not load or type-check, Rows fails: there is no syntactic fallback.
 //
 // Each method body is run through a small abstract interpreter (unexported helpers such as withCheck, withInternals,
 // withPtrInternals, newObjectInternals, withUnknownKeys, withMeta, and delegations to other methods of the same type
@@ -25,10 +33,9 @@ import (
 	"bytes"
 	"fmt"
 	"go/ast"
-	"go/parser"
 	"go/token"
+	"go/types"
 	"os"
-	"path/filepath"
 	"sort"
 	"strings"
 )
@@ -159,13 +166,19 @@ type typeInfo struct {
 	embeds    []string // embedded schema types (promoted methods)
 	methods   map[string]*ast.FuncDecl
 	order     []string
+	named     *types.Named // the (generic, uninstantiated) named type
 }
 
 type prog struct {
 	fset      *token.FileSet
+	td        *typeData
 	types     map[string]*typeInfo
+	byObj     map[*types.TypeName]*typeInfo
 	intFields map[string][]fieldInfo // internals struct name -> type-local fields
 	funcs     map[string]*ast.FuncDecl
+	coreField map[string]bool // fields of core.ZodTypeInternals
+	coreRef   map[string]bool // … that are mutable containers (map / slice): Checks, Bag, Values
+	coreMeth  map[string]*coreMethod
 }
 
 type fieldInfo struct {
@@ -195,72 +208,52 @@ func baseName(t ast.Expr) string {
 	}
 }
 
-func refKind(t ast.Expr) (bool, string) {
-	switch x := t.(type) {
-	case *ast.MapType:
-		return true, "map"
-	case *ast.ArrayType:
-		if x.Len == nil {
-			return true, "slice"
-		}
-		return false, "array"
-	case *ast.StarExpr:
-		return true, "ptr"
-	case *ast.FuncType:
-		return true, "func"
-	case *ast.InterfaceType:
-		return true, "iface"
-	case *ast.Ident:
-		switch x.Name {
-		case "any":
-			return true, "iface"
-		case "bool", "string", "int", "int64", "ObjectMode", "float64":
-			return false, "value"
-		}
-		return false, "named:" + x.Name
-	case *ast.SelectorExpr:
-		switch x.Sel.Name {
-		case "ObjectSchema", "StructSchema":
-			return true, "map"
-		case "ZodSchema", "ZodType", "ZodCheck":
-			return true, "iface"
-		case "Once", "Mutex", "RWMutex":
-			return false, "sync"
-		}
-		return false, "named:" + x.Sel.Name
-	case *ast.IndexExpr:
-		return refKind(x.X)
-	case *ast.IndexListExpr:
-		return refKind(x.X)
-	}
-	return false, "?"
-}
-
 func load(repo string) (*prog, error) {
-	p := &prog{fset: token.NewFileSet(), types: map[string]*typeInfo{}, intFields: map[string][]fieldInfo{}, funcs: map[string]*ast.FuncDecl{}}
-	var files []string
-	m, _ := filepath.Glob(filepath.Join(repo, "types", "*.go"))
-	files = append(files, m...)
-	files = append(files, filepath.Join(repo, "core", "transform.go"))
-	sort.Strings(files)
+	p := &prog{fset: token.NewFileSet(), types: map[string]*typeInfo{}, byObj: map[*types.TypeName]*typeInfo{}, intFields: map[string][]fieldInfo{},
+		funcs: map[string]*ast.FuncDecl{}, coreField: map[string]bool{}, coreRef: map[string]bool{}}
+	td, err := loadTypes(repo, p.fset)
+	if err != nil {
+		return nil, err
+	}
+	p.td = td
+	p.coreMeth = td.coreMethods()
+	if cm := p.coreMeth["Clone"]; cm == nil || len(cm.writes) > 0 {
+		return nil, fmt.Errorf("core.ZodTypeInternals.Clone not found, or it writes its receiver")
+	}
+	// the analysed files: every file of package types, and core/transform.go (ZodTransform / ZodPipe)
 	var parsed []*ast.File
 	var names []string
-	for _, f := range files {
-		if strings.HasSuffix(f, "_test.go") {
-			continue
+	parsed = append(parsed, td.tpkg.files...)
+	names = append(names, td.tpkg.names...)
+	for i, n := range td.cpkg.names {
+		if strings.HasSuffix(n, "core/transform.go") || n == "core/transform.go" {
+			parsed = append(parsed, td.cpkg.files[i])
+			names = append(names, n)
 		}
-		af, err := parser.ParseFile(p.fset, f, nil, parser.SkipObjectResolution)
-		if err != nil {
-			return nil, err
-		}
-		parsed = append(parsed, af)
-		rel, _ := filepath.Rel(repo, f)
-		names = append(names, rel)
 	}
 	if len(parsed) < 10 {
 		return nil, fmt.Errorf("only %d source files under %s/types", len(parsed), repo)
 	}
-	// struct types
+	// core.ZodTypeInternals (as package types sees it)
+	for _, pkg := range []*types.Package{td.cpkg.pkg} {
+		tn, _ := pkg.Scope().Lookup("ZodTypeInternals").(*types.TypeName)
+		if tn == nil {
+			return nil, fmt.Errorf("core.ZodTypeInternals not found")
+		}
+		st, _ := tn.Type().Underlying().(*types.Struct)
+		if st == nil {
+			return nil, fmt.Errorf("core.ZodTypeInternals is not a struct")
+		}
+		for i := 0; i < st.NumFields(); i++ {
+			fv := st.Field(i)
+			p.coreField[fv.Name()] = true
+			switch fv.Type().Underlying().(type) {
+			case *types.Map, *types.Slice:
+				p.coreRef[fv.Name()] = true
+			}
+		}
+	}
+	// schema types: named struct types whose pointer has the methods of core.ZodSchema
 	for i, af := range parsed {
 		for _, d := range af.Decls {
 			gd, ok := d.(*ast.GenDecl)
@@ -269,42 +262,51 @@ func load(repo string) (*prog, error) {
 			}
 			for _, s := range gd.Specs {
 				ts := s.(*ast.TypeSpec)
-				st, ok := ts.Type.(*ast.StructType)
-				if !ok || !strings.HasPrefix(ts.Name.Name, "Zod") {
+				tn, _ := td.info.Defs[ts.Name].(*types.TypeName)
+				if tn == nil {
 					continue
 				}
-				if strings.HasSuffix(ts.Name.Name, "Internals") {
-					var fs []fieldInfo
-					for _, f := range st.Fields.List {
-						if len(f.Names) == 0 {
-							continue // embedded core.ZodTypeInternals
-						}
-						r, k := refKind(f.Type)
-						for _, n := range f.Names {
-							fs = append(fs, fieldInfo{n.Name, r, k})
-						}
-					}
-					p.intFields[ts.Name.Name] = fs
+				named, _ := tn.Type().(*types.Named)
+				if !td.isSchemaNamed(named) {
 					continue
 				}
-				if strings.HasSuffix(ts.Name.Name, "Def") || strings.HasSuffix(ts.Name.Name, "Params") {
-					continue
-				}
-				ti := &typeInfo{name: ts.Name.Name, file: names[i], methods: map[string]*ast.FuncDecl{}}
-				for _, f := range st.Fields.List {
-					if len(f.Names) == 0 {
-						if b := baseName(f.Type); strings.HasPrefix(b, "Zod") {
-							ti.embeds = append(ti.embeds, b)
-						}
-						continue
+				ti := &typeInfo{name: ts.Name.Name, file: names[i], methods: map[string]*ast.FuncDecl{}, named: named}
+				p.types[ti.name] = ti
+				p.byObj[tn] = ti
+			}
+		}
+	}
+	// internals struct (reached through embedding if need be), embedded schemas
+	for _, ti := range p.types {
+		obj, _, _ := types.LookupFieldOrMethod(types.NewPointer(ti.named), true, ti.named.Obj().Pkg(), "internals")
+		if fv, ok := obj.(*types.Var); ok && fv.IsField() {
+			if in := namedOf(fv.Type()); in != nil && !(in.Obj().Name() == "ZodTypeInternals" && td.isCore(in.Obj().Pkg())) {
+				ti.internals = in.Obj().Name()
+				if _, done := p.intFields[ti.internals]; !done {
+					st, _ := in.Underlying().(*types.Struct)
+					if st == nil {
+						return nil, fmt.Errorf("%s.internals: %s is not a struct", ti.name, ti.internals)
 					}
-					for _, n := range f.Names {
-						if n.Name == "internals" {
-							ti.internals = baseName(f.Type)
+					fs := []fieldInfo{}
+					for i := 0; i < st.NumFields(); i++ {
+						f := st.Field(i)
+						if f.Embedded() {
+							continue // core.ZodTypeInternals
 						}
+						r, k := refKindT(f.Type())
+						fs = append(fs, fieldInfo{f.Name(), r, k})
 					}
+					p.intFields[ti.internals] = fs
 				}
-				p.types[ts.Name.Name] = ti
+			}
+		}
+		st := ti.named.Underlying().(*types.Struct)
+		for i := 0; i < st.NumFields(); i++ {
+			f := st.Field(i)
+			if f.Embedded() {
+				if en := namedOf(f.Type()); en != nil && p.byObj[en.Obj()] != nil {
+					ti.embeds = append(ti.embeds, f.Name())
+				}
 			}
 		}
 	}
@@ -319,10 +321,7 @@ func load(repo string) (*prog, error) {
 				p.funcs[fd.Name.Name] = fd
 				continue
 			}
-			if len(fd.Recv.List) != 1 {
-				continue
-			}
-			if ti := p.types[baseName(fd.Recv.List[0].Type)]; ti != nil {
+			if ti := p.ownerOf(fd); ti != nil {
 				if _, dup := ti.methods[fd.Name.Name]; !dup {
 					ti.order = append(ti.order, fd.Name.Name)
 				}
@@ -333,19 +332,124 @@ func load(repo string) (*prog, error) {
 	return p, nil
 }
 
-// lookup finds method name on type t or on a type it embeds.
-func (p *prog) lookup(t *typeInfo, name string) (*ast.FuncDecl, *typeInfo) {
-	if fd := t.methods[name]; fd != nil {
-		return fd, t
+// ownerOf: the schema type that declares method fd.
+func (p *prog) ownerOf(fd *ast.FuncDecl) *typeInfo {
+	fn, _ := p.td.info.Defs[fd.Name].(*types.Func)
+	if fn == nil {
+		return nil
 	}
-	for _, e := range t.embeds {
-		if et := p.types[e]; et != nil {
-			if fd, o := p.lookup(et, name); fd != nil {
-				return fd, o
+	sig, _ := fn.Type().(*types.Signature)
+	if sig == nil || sig.Recv() == nil {
+		return nil
+	}
+	if n := namedOf(sig.Recv().Type()); n != nil {
+		return p.byObj[n.Obj()]
+	}
+	return nil
+}
+
+// resolve: declaration and declaring schema type of a method / function object.
+func (p *prog) resolve(fn *types.Func) (*ast.FuncDecl, *typeInfo) {
+	if fn == nil {
+		return nil, nil
+	}
+	fd := p.td.declOf[fn.Origin()]
+	if fd == nil || fd.Body == nil {
+		return nil, nil
+	}
+	return fd, p.ownerOf(fd)
+}
+
+// callee: the function or method object a call expression statically resolves to (nil: builtin, conversion, closure,
+// function value).
+func (p *prog) callee(c *ast.CallExpr) *types.Func {
+	e := c.Fun
+	for {
+		switch x := e.(type) {
+		case *ast.ParenExpr:
+			e = x.X
+			continue
+		case *ast.IndexExpr:
+			e = x.X
+			continue
+		case *ast.IndexListExpr:
+			e = x.X
+			continue
+		}
+		break
+	}
+	var obj types.Object
+	switch x := e.(type) {
+	case *ast.Ident:
+		obj = p.td.info.Uses[x]
+	case *ast.SelectorExpr:
+		obj = p.td.info.Uses[x.Sel]
+	}
+	fn, _ := obj.(*types.Func)
+	if fn != nil {
+		return fn.Origin()
+	}
+	return nil
+}
+
+// lookup finds method name in the method set of *t (promoted methods included).
+func (p *prog) lookup(t *typeInfo, name string) (*ast.FuncDecl, *typeInfo) {
+	sel := ptrMethodSet(t.named).Lookup(t.named.Obj().Pkg(), name)
+	if sel == nil {
+		return nil, nil
+	}
+	fn, _ := sel.Obj().(*types.Func)
+	return p.resolve(fn)
+}
+
+// typeName: name of the named type (of package types / core) an expression denotes or has, pointers removed.
+func (p *prog) typeName(e ast.Expr) string {
+	if tv, ok := p.td.info.Types[e]; ok {
+		if n := namedOf(tv.Type); n != nil && p.td.ours(n.Obj().Pkg()) {
+			return n.Obj().Name()
+		}
+		return ""
+	}
+	return baseName(e)
+}
+
+// canBeSchema: can a value of static type t be a schema?  A pointer to a schema type; or an interface type that some
+// schema type satisfies (any, core.ZodSchema, core.ZodType[…], …: compared by method names, so that generic
+// interfaces need no instantiation).
+func (p *prog) canBeSchema(t types.Type) bool {
+	if t == nil {
+		return false
+	}
+	t = types.Unalias(t)
+	if _, ok := t.(*types.TypeParam); ok {
+		return false
+	}
+	if pt, ok := t.(*types.Pointer); ok {
+		n := namedOf(pt.Elem())
+		return n != nil && p.byObj[n.Obj()] != nil || (n != nil && p.td.isSchemaNamed(n))
+	}
+	it, ok := t.Underlying().(*types.Interface)
+	if !ok {
+		return false
+	}
+	if it.NumMethods() == 0 {
+		return it.IsMethodSet() // any; not a constraint interface
+	}
+	for _, ti := range p.types {
+		ms := ptrMethodSet(ti.named)
+		all := true
+		for i := 0; i < it.NumMethods(); i++ {
+			m := it.Method(i)
+			if ms.Lookup(m.Pkg(), m.Name()) == nil {
+				all = false
+				break
 			}
 		}
+		if all {
+			return true
+		}
 	}
-	return nil, nil
+	return false
 }
 
 // ---------------------------------------------------------------------------------------------
@@ -364,7 +468,7 @@ type frame struct {
 	p     *prog
 	t     *typeInfo // type whose method is being interpreted
 	recv  string
-	env   map[string]*av
+	env   map[types.Object]*av // keyed by the declared object (types.Info.Defs / Uses): shadowing cannot confuse two variables
 	eff   *effects
 	rets  []*av
 	cond  int
@@ -372,8 +476,6 @@ type frame struct {
 	depth int
 	once  int // inside the argument of a sync.Once.Do call
 }
-
-var coreRefFields = map[string]bool{"Checks": true, "Bag": true, "Values": true}
 
 func (f *frame) note(format string, a ...any) {
 	s := fmt.Sprintf(format, a...)
@@ -385,20 +487,47 @@ func (f *frame) note(format string, a ...any) {
 	f.eff.unknown = append(f.eff.unknown, s)
 }
 
-func (f *frame) set(name string, v *av) {
-	if name == "_" {
+// obj: the object an identifier declares or refers to.
+func (f *frame) obj(id *ast.Ident) types.Object {
+	if id == nil {
+		return nil
+	}
+	if o := f.p.td.info.Defs[id]; o != nil {
+		return o
+	}
+	return f.p.td.info.Uses[id]
+}
+
+// get: the abstract value bound to the variable an identifier refers to.
+func (f *frame) get(id *ast.Ident) *av {
+	if o := f.obj(id); o != nil {
+		return f.env[o]
+	}
+	return nil
+}
+
+func (f *frame) set(id *ast.Ident, v *av) {
+	o := f.obj(id)
+	if id.Name == "_" || o == nil {
 		return
 	}
 	if f.cond > 0 {
-		if old, ok := f.env[name]; ok {
-			f.env[name] = join(old, v)
+		if old, ok := f.env[o]; ok {
+			f.env[o] = join(old, v)
 			return
 		}
 	}
-	f.env[name] = v
+	f.env[o] = v
 }
 
-func rootIdent(e ast.Expr) (string, []string) {
+// bind: parameter / receiver binding of a fresh frame.
+func (f *frame) bind(id *ast.Ident, v *av) {
+	if o := f.p.td.info.Defs[id]; o != nil && id.Name != "_" {
+		f.env[o] = v
+	}
+}
+
+func rootIdent(e ast.Expr) (*ast.Ident, []string) {
 	var path []string
 	for {
 		switch x := e.(type) {
@@ -413,9 +542,9 @@ func rootIdent(e ast.Expr) (string, []string) {
 		case *ast.ParenExpr:
 			e = x.X
 		case *ast.Ident:
-			return x.Name, path
+			return x, path
 		default:
-			return "", path
+			return nil, path
 		}
 	}
 }
@@ -423,7 +552,7 @@ func rootIdent(e ast.Expr) (string, []string) {
 // writeTo records an assignment / mutation whose target is the lvalue e; rhs may be nil (delete, maps.Copy, …).
 func (f *frame) writeTo(e ast.Expr, rhs *av, what string) {
 	if id, ok := e.(*ast.Ident); ok {
-		f.set(id.Name, rhs)
+		f.set(id, rhs)
 		return
 	}
 	// evaluate the container the write goes into
@@ -479,7 +608,7 @@ func (f *frame) writeTo(e ast.Expr, rhs *av, what string) {
 				}
 				break
 			}
-			if coreRefFields[field] || x.ti.isCoreField(field) {
+			if f.p.coreRef[field] || f.p.coreField[field] {
 				// promoted field of the embedded core struct
 				f.coreFieldWrite(x.ti.core, field, rhs, what)
 				break
@@ -506,15 +635,6 @@ func (f *frame) writeTo(e ast.Expr, rhs *av, what string) {
 	}
 }
 
-func (t *tiVal) isCoreField(name string) bool {
-	switch name {
-	case "Type", "Coerce", "Optional", "Nilable", "NonOptional", "ExactOptional", "Error", "Parse", "Constructor",
-		"DefaultValue", "DefaultFunc", "PrefaultValue", "PrefaultFunc", "Transform", "IsCoerce":
-		return true
-	}
-	return false
-}
-
 func (f *frame) coreFieldWrite(c *coreVal, field string, rhs *av, what string) {
 	if c == nil {
 		return
@@ -535,15 +655,44 @@ func (f *frame) coreFieldWrite(c *coreVal, field string, rhs *av, what string) {
 	}
 }
 
+// holdsRecv: does the expression pass the receiver itself (or its internals pointer) on?  An identifier bound to the
+// receiver counts, except below a selection of a FIELD that is neither an embedded schema (z.ZodString: the same
+// receiver) nor a pointer to an internals struct (z.internals): z.internals.Shape, z.internals.Def, z.inner … are parts
+// of the receiver, not the receiver (decided from types.Info.Selections, not from names).
 func (f *frame) holdsRecv(e ast.Expr) bool {
 	found := false
+	info := f.p.td.info
 	ast.Inspect(e, func(n ast.Node) bool {
-		if _, isFn := n.(*ast.FuncLit); isFn {
+		switch x := n.(type) {
+		case *ast.FuncLit:
 			return false
-		}
-		if id, ok := n.(*ast.Ident); ok {
-			if v := f.env[id.Name]; v != nil && v.kind == "recv" {
-				found = true
+		case *ast.SelectorExpr:
+			if sel := info.Selections[x]; sel != nil && sel.Kind() == types.FieldVal {
+				fv, _ := sel.Obj().(*types.Var)
+				keep := false
+				if fv != nil {
+					if fv.Embedded() {
+						if n := namedOf(fv.Type()); n != nil && f.p.byObj[n.Obj()] != nil {
+							keep = true
+						}
+					}
+					if _, isPtr := types.Unalias(fv.Type()).(*types.Pointer); isPtr {
+						if n := namedOf(fv.Type()); n != nil && f.p.td.ours(n.Obj().Pkg()) {
+							if _, isInt := f.p.intFields[n.Obj().Name()]; isInt || n.Obj().Name() == "ZodTypeInternals" {
+								keep = true
+							}
+						}
+					}
+				}
+				if !keep {
+					return false
+				}
+			}
+		case *ast.Ident:
+			if v := f.get(x); v != nil && v.kind == "recv" {
+				if tv, isVar := info.Uses[x].(*types.Var); isVar && !tv.IsField() {
+					found = true
+				}
 			}
 		}
 		return !found
@@ -559,7 +708,7 @@ func (f *frame) eval(e ast.Expr) *av {
 		if x.Name == "nil" {
 			return mk("nil")
 		}
-		if v, ok := f.env[x.Name]; ok && v != nil {
+		if v := f.get(x); v != nil {
 			return v
 		}
 		return mk("other")
@@ -654,14 +803,14 @@ func (f *frame) sel(a *av, name string) *av {
 				return &av{kind: "rfield", path: name}
 			}
 		}
-		if coreRefFields[name] {
+		if f.p.coreRef[name] {
 			return &av{kind: "corefield", core: &coreVal{origin: "recv"}, path: name}
 		}
 		return mk("other") // a value-typed field of the embedded core struct
 	case "rfield":
 		return &av{kind: "rfield", path: a.path + "." + name}
 	case "core":
-		if coreRefFields[name] {
+		if f.p.coreRef[name] {
 			return &av{kind: "corefield", core: a.core, path: name}
 		}
 		return mk("other")
@@ -682,7 +831,7 @@ func (f *frame) sel(a *av, name string) *av {
 		if v := a.ti.fields[name]; v != nil {
 			return v
 		}
-		if coreRefFields[name] {
+		if f.p.coreRef[name] {
 			return &av{kind: "corefield", core: a.ti.core, path: name}
 		}
 		return mk("other")
@@ -700,7 +849,7 @@ func (f *frame) sel(a *av, name string) *av {
 }
 
 func (f *frame) composite(x *ast.CompositeLit) *av {
-	name := baseName(x.Type)
+	name := f.p.typeName(x)
 	if fs, ok := f.p.intFields[name]; ok {
 		ti := &tiVal{core: &coreVal{origin: "zero"}, fields: map[string]*av{}}
 		for _, fi := range fs {
@@ -769,7 +918,7 @@ func (f *frame) composite(x *ast.CompositeLit) *av {
 						}
 					}
 				}
-			} else if strings.HasPrefix(k, "Zod") { // embedded schema: &ZodEmail[T]{ZodString: inner}
+			} else if t.hasEmbed(k) { // embedded schema: &ZodEmail[T]{ZodString: inner}
 				for _, a := range v.flat() {
 					if a.kind == "schema" {
 						s.ti = a.ti
@@ -803,6 +952,15 @@ func (f *frame) composite(x *ast.CompositeLit) *av {
 	return r
 }
 
+func (t *typeInfo) hasEmbed(name string) bool {
+	for _, e := range t.embeds {
+		if e == name {
+			return true
+		}
+	}
+	return false
+}
+
 func (f *frame) scanClosure(fl *ast.FuncLit) {
 	tag := "closure-assign "
 	if f.once > 0 {
@@ -812,15 +970,15 @@ func (f *frame) scanClosure(fl *ast.FuncLit) {
 		switch s := n.(type) {
 		case *ast.AssignStmt:
 			for _, l := range s.Lhs {
-				if r, path := rootIdent(l); r != "" && len(path) > 0 {
-					if v := f.env[r]; v != nil && (v.kind == "recv" || v.kind == "rint" || v.kind == "rfield") {
+				if r, path := rootIdent(l); r != nil && len(path) > 0 {
+					if v := f.get(r); v != nil && (v.kind == "recv" || v.kind == "rint" || v.kind == "rfield") {
 						f.eff.recvWrites = append(f.eff.recvWrites, tag+strings.Join(path, "."))
 					}
 				}
 			}
 		case *ast.IncDecStmt:
-			if r, path := rootIdent(s.X); r != "" && len(path) > 0 {
-				if v := f.env[r]; v != nil && (v.kind == "recv" || v.kind == "rint" || v.kind == "rfield") {
+			if r, path := rootIdent(s.X); r != nil && len(path) > 0 {
+				if v := f.get(r); v != nil && (v.kind == "recv" || v.kind == "rint" || v.kind == "rfield") {
 					f.eff.recvWrites = append(f.eff.recvWrites, "closure-incdec "+strings.Join(path, "."))
 				}
 			}
@@ -848,17 +1006,13 @@ func funName(e ast.Expr) (pkg, name string, recvExpr ast.Expr) {
 	return "", "", nil
 }
 
-var pureFuncs = map[string]bool{"len": true, "cap": true, "min": true, "max": true, "string": true, "int": true, "int64": true,
-	"float64": true, "bool": true, "panic": true, "print": true, "println": true}
-
 func (f *frame) call(c *ast.CallExpr) *av {
 	pkg, name, recvExpr := funName(c.Fun)
-	isOnce := false
-	if name == "Do" && recvExpr != nil {
-		if _, path := rootIdent(recvExpr); len(path) > 0 && strings.Contains(strings.ToLower(path[len(path)-1]), "once") {
-			isOnce = true
-			f.once++
-		}
+	info := f.p.td.info
+	callee := f.p.callee(c)
+	isOnce := callee != nil && callee.FullName() == "(*sync.Once).Do"
+	if isOnce {
+		f.once++
 	}
 	argv := make([]*av, len(c.Args))
 	for i, a := range c.Args {
@@ -868,63 +1022,85 @@ func (f *frame) call(c *ast.CallExpr) *av {
 		f.once--
 		return mk("other")
 	}
-	// builtins and library helpers
-	if recvExpr == nil {
-		switch name {
-		case "make", "new":
-			return mk("fresh")
-		case "append":
-			if len(argv) == 0 {
-				return mk("fresh")
-			}
-			var out *av
-			for _, a := range argv[0].flat() {
-				switch a.kind {
-				case "nil", "fresh", "ctor", "other":
-					out = join(out, mk("fresh"))
-				case "rfield":
-					out = join(out, &av{kind: "append", path: a.path})
-				case "corefield":
-					if a.core.origin == "recv" {
-						out = join(out, &av{kind: "append", path: a.path})
-					} else {
-						out = join(out, mk("fresh"))
-					}
-				default:
-					out = join(out, mk("fresh"))
-				}
-			}
-			return out
-		case "delete", "clear":
-			if len(c.Args) > 0 {
-				f.mutate(c.Args[0], name)
-			}
-			return mk("other")
-		case "copy":
-			if len(c.Args) > 0 {
-				f.mutate(c.Args[0], name)
-			}
-			return mk("other")
-		case "any":
-			if len(argv) == 1 {
+	// conversion T(x): a reference type keeps the identity of its operand (any(z), core.ZodSchema(z), []any(xs))
+	if tv, ok := info.Types[c.Fun]; ok && tv.IsType() {
+		if len(argv) == 1 {
+			if r, _ := refKindT(tv.Type); r {
 				return argv[0]
 			}
 		}
-		if pureFuncs[name] {
+		return mk("other")
+	}
+	// builtins
+	if id, ok := c.Fun.(*ast.Ident); ok {
+		if _, isBuiltin := info.Uses[id].(*types.Builtin); isBuiltin {
+			switch name {
+			case "make", "new":
+				return mk("fresh")
+			case "append":
+				if len(argv) == 0 {
+					return mk("fresh")
+				}
+				var out *av
+				for _, a := range argv[0].flat() {
+					switch a.kind {
+					case "nil", "fresh", "ctor", "other":
+						out = join(out, mk("fresh"))
+					case "rfield":
+						out = join(out, &av{kind: "append", path: a.path})
+					case "corefield":
+						if a.core.origin == "recv" {
+							out = join(out, &av{kind: "append", path: a.path})
+						} else {
+							out = join(out, mk("fresh"))
+						}
+					default:
+						out = join(out, mk("fresh"))
+					}
+				}
+				return out
+			case "delete", "clear", "copy":
+				if len(c.Args) > 0 {
+					f.mutate(c.Args[0], name)
+				}
+				return mk("other")
+			}
+			return mk("other") // len, cap, min, max, panic, …
+		}
+	}
+	// package-level function (of this package, or package-qualified)
+	_, isPkgQual := info.Uses[identOf(recvExpr)].(*types.PkgName)
+	if recvExpr == nil || isPkgQual {
+		if callee == nil {
+			return mk("other") // a local closure / function value
+		}
+		if !f.p.td.ours(callee.Pkg()) {
+			switch callee.Pkg().Path() + "." + name {
+			case "maps.Clone", "slices.Clone", "maps.Keys", "maps.Values", "slices.Collect", "slices.Sorted":
+				return mk("fresh")
+			case "maps.Copy":
+				if len(c.Args) > 0 {
+					f.mutate(c.Args[0], "maps.Copy")
+				}
+			}
 			return mk("other")
 		}
-		// package-level function of package types / core: unexported helpers (newEmail, …) are inlined, exported
-		// constructors (ObjectTyped, Intersection, Union, …) are opaque "ctor" values
-		if fd := f.p.funcs[name]; fd != nil && !ast.IsExported(name) && f.depth < 6 && returnsSchema(fd) {
+		qual := name
+		if isPkgQual {
+			qual = pkg + "." + name
+		}
+		// unexported helpers of the analysed files that return a schema (newEmail, newZod…FromDef, …) are inlined; every
+		// other function of package types / core is an opaque constructor
+		if fd, _ := f.p.resolve(callee); fd != nil && fd.Recv == nil && !callee.Exported() && f.depth < 6 && f.p.returnsSchema(callee) {
 			f.eff.helpers = append(f.eff.helpers, name)
-			sub := &frame{p: f.p, t: f.t, env: map[string]*av{}, eff: f.eff, depth: f.depth + 1, loop: f.loop}
+			sub := &frame{p: f.p, t: f.t, env: map[types.Object]*av{}, eff: f.eff, depth: f.depth + 1, loop: f.loop}
 			i := 0
 			for _, prm := range fd.Type.Params.List {
 				for _, n := range prm.Names {
 					if i < len(argv) {
-						sub.env[n.Name] = argv[i]
+						sub.bind(n, argv[i])
 					} else {
-						sub.env[n.Name] = mk("arg")
+						sub.bind(n, mk("arg"))
 					}
 					i++
 				}
@@ -939,35 +1115,13 @@ func (f *frame) call(c *ast.CallExpr) *av {
 			}
 			return mk("other")
 		}
-		if fd := f.p.funcs[name]; fd != nil || (len(name) > 0 && name[0] >= 'A' && name[0] <= 'Z') {
-			return f.ctorCall(name, c, argv)
-		}
-		if v := f.env[name]; v != nil {
-			return mk("other") // calling a local closure
-		}
-		if len(argv) == 1 { // unexported conversion helper (convertToX(v)): value in, value out
-			return mk("other")
-		}
-		return mk("other")
-	}
-	if pkg != "" && f.env[pkg] == nil {
-		// qualified identifier of another package, or a method on a package-level variable
-		switch pkg + "." + name {
-		case "maps.Clone", "slices.Clone", "maps.Keys", "maps.Values", "slices.Collect", "slices.Sorted":
-			return mk("fresh")
-		case "maps.Copy":
-			if len(c.Args) > 0 {
-				f.mutate(c.Args[0], "maps.Copy")
-			}
-			return mk("other")
-		}
-		if pkg == "core" && strings.HasPrefix(name, "NewZod") {
-			return f.ctorCall("core."+name, c, argv)
+		if !isPkgQual || f.p.resultCanBeSchema(callee) {
+			return f.ctorCall(qual, c, argv)
 		}
 		return mk("other")
 	}
 	// core.GlobalRegistry.Add / Get / Remove
-	if se, ok := recvExpr.(*ast.SelectorExpr); ok && se.Sel.Name == "GlobalRegistry" || (pkg == "GlobalRegistry") {
+	if f.p.isGlobalRegistry(recvExpr) {
 		if name == "Add" && len(argv) > 0 {
 			for _, a := range argv[0].flat() {
 				switch a.kind {
@@ -992,6 +1146,27 @@ func (f *frame) call(c *ast.CallExpr) *av {
 		out = join(out, f.methodCall(a, name, c, argv))
 	}
 	return out
+}
+
+func identOf(e ast.Expr) *ast.Ident {
+	id, _ := e.(*ast.Ident)
+	return id
+}
+
+// isGlobalRegistry: the expression denotes the package-level variable core.GlobalRegistry.
+func (p *prog) isGlobalRegistry(e ast.Expr) bool {
+	var id *ast.Ident
+	switch x := e.(type) {
+	case *ast.SelectorExpr:
+		id = x.Sel
+	case *ast.Ident:
+		id = x
+	}
+	if id == nil {
+		return false
+	}
+	v, _ := p.td.info.Uses[id].(*types.Var)
+	return v != nil && !v.IsField() && v.Name() == "GlobalRegistry" && p.td.isCore(v.Pkg()) && v.Parent() == v.Pkg().Scope()
 }
 
 func (f *frame) mutate(target ast.Expr, what string) {
@@ -1043,18 +1218,27 @@ func (f *frame) methodCall(a *av, name string, c *ast.CallExpr, argv []*av) *av 
 		if name == "Clone" {
 			return &av{kind: "core", core: &coreVal{origin: "clone"}}
 		}
-		if coreSetters[name] || strings.HasPrefix(name, "Set") || strings.HasPrefix(name, "Add") {
+		// a mutator: by its source (core is checked from source: the method assigns through its receiver), or, for a method
+		// the scan does not know, by the Set…/Add… naming convention
+		cm := f.p.coreMeth[name]
+		if (cm != nil && len(cm.writes) > 0) || (cm == nil && (coreSetters[name] || strings.HasPrefix(name, "Set") || strings.HasPrefix(name, "Add"))) {
 			if cv.origin == "recv" {
 				f.eff.recvWrites = append(f.eff.recvWrites, name+"() on the receiver's internals")
 				return mk("other")
 			}
-			if name == "AddCheck" {
+			if name == "AddCheck" || (cm != nil && cm.appends) {
 				cv.adds++
 				if f.loop > 0 || f.cond > 0 {
 					cv.loop = true // the number of appended checks is not a static constant
 				}
 			} else {
 				cv.setters = append(cv.setters, name)
+				if cm != nil && cm.writes["Checks"] {
+					cv.refilter = true // the Checks slice is replaced otherwise than by one append
+				}
+				if cm != nil && cm.writes["Bag"] {
+					cv.bagWrite = true
+				}
 			}
 		}
 		return mk("other")
@@ -1071,8 +1255,13 @@ func (f *frame) methodCall(a *av, name string, c *ast.CallExpr, argv []*av) *av 
 		if a.path != "" && f.p.types[a.path] != nil {
 			start = f.p.types[a.path]
 		}
-		fd, owner := f.p.lookup(start, name)
-		if fd == nil {
+		// static resolution (types.Info: the method object the selector denotes, promoted methods included); a call
+		// through an interface value falls back to the method set of the frame's type
+		fd, owner := f.p.resolve(f.p.callee(c))
+		if fd == nil || owner == nil {
+			fd, owner = f.p.lookup(start, name)
+		}
+		if fd == nil || owner == nil {
 			f.note("method %s not found on %s", name, f.t.name)
 			return mk("unk")
 		}
@@ -1085,21 +1274,24 @@ func (f *frame) methodCall(a *av, name string, c *ast.CallExpr, argv []*av) *av 
 	case "schema":
 		// a method called on the NEW schema (z.Gte(…).Lte(…)): interpret it with the intermediate schema as its receiver
 		// (its writes hit the intermediate, not the receiver) and compose the two results
-		fd, owner := f.p.lookup(f.t, name)
-		if fd == nil || f.depth > 6 || a.ti == nil {
+		fd, owner := f.p.resolve(f.p.callee(c))
+		if fd == nil || owner == nil {
+			fd, owner = f.p.lookup(f.t, name)
+		}
+		if fd == nil || owner == nil || f.depth > 6 || a.ti == nil {
 			return a
 		}
-		sub := &frame{p: f.p, t: owner, env: map[string]*av{}, eff: &effects{}, depth: f.depth + 1, loop: f.loop}
+		sub := &frame{p: f.p, t: owner, env: map[types.Object]*av{}, eff: &effects{}, depth: f.depth + 1, loop: f.loop}
 		if len(fd.Recv.List[0].Names) > 0 {
-			sub.env[fd.Recv.List[0].Names[0].Name] = mk("recv")
+			sub.bind(fd.Recv.List[0].Names[0], mk("recv"))
 		}
 		i := 0
 		for _, prm := range fd.Type.Params.List {
 			for _, n := range prm.Names {
 				if i < len(argv) {
-					sub.env[n.Name] = argv[i]
+					sub.bind(n, argv[i])
 				} else {
-					sub.env[n.Name] = mk("arg")
+					sub.bind(n, mk("arg"))
 				}
 				i++
 			}
@@ -1162,22 +1354,22 @@ func (f *frame) methodCall(a *av, name string, c *ast.CallExpr, argv []*av) *av 
 }
 
 func (f *frame) inline(fd *ast.FuncDecl, owner *typeInfo, argv []*av) *av {
-	sub := &frame{p: f.p, t: f.t, env: map[string]*av{}, eff: f.eff, depth: f.depth + 1, cond: 0, loop: f.loop}
+	sub := &frame{p: f.p, t: f.t, env: map[types.Object]*av{}, eff: f.eff, depth: f.depth + 1, cond: 0, loop: f.loop}
 	if owner != f.t {
 		// promoted method: it runs on the embedded schema, whose internals are the receiver's
 		sub.t = owner
 	}
 	if len(fd.Recv.List[0].Names) > 0 {
 		sub.recv = fd.Recv.List[0].Names[0].Name
-		sub.env[sub.recv] = mk("recv")
+		sub.bind(fd.Recv.List[0].Names[0], mk("recv"))
 	}
 	i := 0
 	for _, p := range fd.Type.Params.List {
 		for _, n := range p.Names {
 			if i < len(argv) {
-				sub.env[n.Name] = argv[i]
+				sub.bind(n, argv[i])
 			} else {
-				sub.env[n.Name] = mk("arg")
+				sub.bind(n, mk("arg"))
 			}
 			i++
 		}
@@ -1237,11 +1429,11 @@ func (f *frame) stmt(s ast.Stmt) {
 				}
 				for i, n := range vs.Names {
 					if i < len(vs.Values) {
-						f.set(n.Name, f.eval(vs.Values[i]))
-					} else if r, _ := refKind(vs.Type); r {
-						f.set(n.Name, mk("nil"))
+						f.set(n, f.eval(vs.Values[i]))
+					} else if r, _ := refKindT(f.p.td.info.TypeOf(vs.Type)); r {
+						f.set(n, mk("nil"))
 					} else {
-						f.set(n.Name, mk("other"))
+						f.set(n, mk("other"))
 					}
 				}
 			}
@@ -1282,10 +1474,10 @@ func (f *frame) stmt(s ast.Stmt) {
 			}
 		}
 		if id, ok := x.Key.(*ast.Ident); ok {
-			f.set(id.Name, mk("other"))
+			f.set(id, mk("other"))
 		}
 		if id, ok := x.Value.(*ast.Ident); ok {
-			f.set(id.Name, elem)
+			f.set(id, elem)
 		}
 		f.loop++
 		f.branch(func() { f.block(x.Body.List) })
@@ -1298,18 +1490,22 @@ func (f *frame) stmt(s ast.Stmt) {
 			f.branch(func() { f.block(cc.(*ast.CaseClause).Body) })
 		}
 	case *ast.TypeSwitchStmt:
-		var bind string
+		if x.Init != nil {
+			f.stmt(x.Init)
+		}
+		bind := false
 		var src *av
 		if as, ok := x.Assign.(*ast.AssignStmt); ok && len(as.Lhs) == 1 {
-			bind = as.Lhs[0].(*ast.Ident).Name
+			bind = true
 			if ta, ok := as.Rhs[0].(*ast.TypeAssertExpr); ok {
 				src = f.eval(ta.X)
 			}
 		}
 		for _, cc := range x.Body.List {
 			f.branch(func() {
-				if bind != "" && src != nil {
-					f.env[bind] = src
+				// `switch v := x.(type)`: v is a distinct implicit object per clause (types.Info.Implicits)
+				if o := f.p.td.info.Implicits[cc]; bind && src != nil && o != nil {
+					f.env[o] = src
 				}
 				f.block(cc.(*ast.CaseClause).Body)
 			})
@@ -1349,57 +1545,52 @@ type Row struct {
 	CheckCalls         []string // methods called on shared check objects
 }
 
-func isSchemaResult(t ast.Expr) bool {
-	switch x := t.(type) {
-	case *ast.StarExpr:
-		return strings.HasPrefix(baseName(x.X), "Zod") && !strings.HasSuffix(baseName(x.X), "Internals") && !strings.HasSuffix(baseName(x.X), "Def")
-	case *ast.Ident:
-		return x.Name == "any" || x.Name == "ZodSchema"
-	case *ast.SelectorExpr:
-		return x.Sel.Name == "ZodSchema" || x.Sel.Name == "ZodType"
-	case *ast.IndexExpr:
-		return baseName(x.X) == "ZodType"
-	case *ast.InterfaceType:
-		return x.Methods == nil || len(x.Methods.List) == 0
-	}
-	return false
-}
-
-func returnsSchema(fd *ast.FuncDecl) bool {
-	if fd.Type.Results == nil {
+// returnsSchema: some result is a pointer to a schema type (helpers worth inlining).
+func (p *prog) returnsSchema(fn *types.Func) bool {
+	sig, _ := fn.Type().(*types.Signature)
+	if sig == nil {
 		return false
 	}
-	for _, r := range fd.Type.Results.List {
-		if _, ok := r.Type.(*ast.StarExpr); ok && isSchemaResult(r.Type) {
+	for i := 0; i < sig.Results().Len(); i++ {
+		if _, ok := types.Unalias(sig.Results().At(i).Type()).(*types.Pointer); ok && p.canBeSchema(sig.Results().At(i).Type()) {
 			return true
 		}
 	}
 	return false
 }
 
-func candidate(fd *ast.FuncDecl) bool {
-	n := fd.Name.Name
-	if !ast.IsExported(n) || strings.Contains(n, "Parse") || n == "Internals" || fd.Type.Results == nil {
+// resultCanBeSchema: some result's static type admits a schema (pointer to a schema type, or an interface a schema satisfies).
+func (p *prog) resultCanBeSchema(fn *types.Func) bool {
+	sig, _ := fn.Type().(*types.Signature)
+	if sig == nil {
 		return false
 	}
-	for _, r := range fd.Type.Results.List {
-		if isSchemaResult(r.Type) {
+	for i := 0; i < sig.Results().Len(); i++ {
+		if p.canBeSchema(sig.Results().At(i).Type()) {
 			return true
 		}
 	}
 	return false
+}
+
+func (p *prog) candidate(fn *types.Func) bool {
+	n := fn.Name()
+	if !fn.Exported() || strings.Contains(n, "Parse") || n == "Internals" {
+		return false
+	}
+	return p.resultCanBeSchema(fn)
 }
 
 func (p *prog) analyse(t *typeInfo, owner *typeInfo, fd *ast.FuncDecl) Row {
 	eff := &effects{}
-	fr := &frame{p: p, t: owner, env: map[string]*av{}, eff: eff}
+	fr := &frame{p: p, t: owner, env: map[types.Object]*av{}, eff: eff}
 	if len(fd.Recv.List[0].Names) > 0 {
 		fr.recv = fd.Recv.List[0].Names[0].Name
-		fr.env[fr.recv] = mk("recv")
+		fr.bind(fd.Recv.List[0].Names[0], mk("recv"))
 	}
 	for _, prm := range fd.Type.Params.List {
 		for _, n := range prm.Names {
-			fr.env[n.Name] = mk("arg")
+			fr.bind(n, mk("arg"))
 		}
 	}
 	fr.block(fd.Body.List)
@@ -1516,26 +1707,35 @@ func Rows(repo string) ([]Row, error) {
 	var rows []Row
 	for _, tn := range tnames {
 		t := p.types[tn]
-		seen := map[string]bool{}
-		var add func(owner *typeInfo)
-		add = func(owner *typeInfo) {
-			names := append([]string(nil), owner.order...)
-			sort.Strings(names)
-			for _, mn := range names {
-				fd := owner.methods[mn]
-				if seen[mn] || !candidate(fd) {
-					continue
-				}
-				seen[mn] = true
-				rows = append(rows, p.analyse(t, owner, fd))
-			}
-			for _, e := range owner.embeds {
-				if et := p.types[e]; et != nil {
-					add(et)
-				}
-			}
+		// the method set of *T: declared methods first, then the promoted ones (by embedding depth)
+		type cand struct {
+			fd    *ast.FuncDecl
+			owner *typeInfo
+			depth int
 		}
-		add(t)
+		var cands []cand
+		ms := ptrMethodSet(t.named)
+		for i := 0; i < ms.Len(); i++ {
+			sel := ms.At(i)
+			fn, _ := sel.Obj().(*types.Func)
+			if fn == nil || !p.candidate(fn) {
+				continue
+			}
+			fd, owner := p.resolve(fn)
+			if fd == nil || owner == nil {
+				return nil, fmt.Errorf("%s.%s: promoted from a type outside the analysed files", t.name, fn.Name())
+			}
+			cands = append(cands, cand{fd, owner, len(sel.Index())})
+		}
+		sort.SliceStable(cands, func(i, j int) bool {
+			if cands[i].depth != cands[j].depth {
+				return cands[i].depth < cands[j].depth
+			}
+			return cands[i].fd.Name.Name < cands[j].fd.Name.Name
+		})
+		for _, c := range cands {
+			rows = append(rows, p.analyse(t, c.owner, c.fd))
+		}
 	}
 	if len(rows) < 200 {
 		return nil, fmt.Errorf("only %d chaining methods found under %s (expected several hundred)", len(rows), repo)
@@ -1546,7 +1746,9 @@ func Rows(repo string) ([]Row, error) {
 // ---------------------------------------------------------------------------------------------
 // Lean rendering
 
-func q(s string) string { return "\"" + strings.ReplaceAll(strings.ReplaceAll(s, "\\", "\\\\"), "\"", "\\\"") + "\"" }
+func q(s string) string {
+	return "\"" + strings.ReplaceAll(strings.ReplaceAll(s, "\\", "\\\\"), "\"", "\\\"") + "\""
+}
 
 func qlist(xs []string) string {
 	ys := make([]string, len(xs))
